@@ -130,7 +130,7 @@ func wrapText(s string, l int, prefix string) string {
 
 			if pos < 0 {
 				pos = l - 1
-				suffix = "-\n"
+				suffix = "-"
 			}
 
 			if len(retline) != 0 {
